@@ -67,6 +67,9 @@ type Server struct {
 	Rand *rand.Rand
 	// Extra HTTP response headers, as an HTTP cache in front of the DoH server adds them (Age, Cache-Control)
 	Headers map[string]string
+	// OnQuery is called (without the lock) when a query has arrived, before it is answered: time passes
+	// while a lookup is on the wire
+	OnQuery func(name string, typ int)
 }
 
 // NewServer starts the DoH endpoint on several loopback ports. The package under test opens a new
@@ -103,6 +106,9 @@ func (s *Server) Set(u Universe) {
 	s.U = u
 	s.mu.Unlock()
 }
+
+// mu gives the harness access to the lock that guards the hooks.
+func (s *Server) Mu() *sync.Mutex { return &s.mu }
 
 func (s *Server) SetHeaders(h map[string]string) {
 	s.mu.Lock()
@@ -165,10 +171,14 @@ func (s *Server) handle(w http.ResponseWriter, req *http.Request) {
 		resp = Resp{RCode: 3}
 	}
 	compress := s.Rand.IntN(2) == 0
+	hook := s.OnQuery
 	for k, v := range s.Headers {
 		w.Header().Set(k, v)
 	}
 	s.mu.Unlock()
+	if hook != nil {
+		hook(name, typ)
+	}
 	if resp.Fail {
 		http.Error(w, "scripted failure", 400)
 		return
